@@ -26,7 +26,7 @@ ERR_KINDS = ('postcondition not satisfied', 'precondition not satisfied', 'asser
              'index out of bounds', 'unreachable')
 
 def _run(path, rlimit, timeout, extra=()):
-    cmd = ['timeout', str(timeout), VERUS, path, '--output-json', '--time', '--rlimit', str(rlimit)] + list(extra)
+    cmd = ['timeout', str(timeout), VERUS, path, '--output-json', '--time', '--rlimit', str(rlimit), '--multiple-errors', '4'] + list(extra)
     t0 = time.time()
     p = subprocess.run(cmd, capture_output=True, text=True, cwd=os.path.dirname(path))
     return p, time.time() - t0, ' '.join(cmd)
